@@ -10,6 +10,7 @@ import (
 type builtinJSONParseContext struct {
 	reviver Value
 	call    FunctionCall
+	depth   int
 }
 
 func builtinJSONParse(call FunctionCall) Value {
@@ -40,6 +41,11 @@ func builtinJSONParse(call FunctionCall) Value {
 }
 
 func builtinJSONReviveWalk(ctx builtinJSONParseContext, holder *object, name string) Value {
+	// A reviver can make the structure cyclic: honour the stack depth limit.
+	ctx.depth++
+	if limit := ctx.call.runtime.stackLimit; limit != 0 && ctx.depth > limit {
+		panic(ctx.call.runtime.panicRangeError("Maximum call stack size exceeded"))
+	}
 	value := holder.get(name)
 	if obj := value.object(); obj != nil {
 		if isArray(obj) {
